@@ -8,9 +8,12 @@
 # RUSTFLAGS is dropped for the run: hydro_lang's trybuild driver disables its per-program build
 # cache when RUSTFLAGS is set (every program would be recompiled on every run).  The harness
 # binary itself was already built with `--cfg hydro_project_hydro_verif` by build.sh.
-set -euo pipefail
+# stderr (cargo progress of the trybuild builds, bolero's per-run statistics) goes to a log file
+# under $VERIF_ROOT/work/sim; its tail is shown when the run does not exit 0.
+set -uo pipefail
 here="$(cd "$(dirname "$0")" && pwd)"
 root="${VERIF_ROOT:-$(cd "$here/../.." && pwd)}"
+export VERIF_ROOT="$root"
 export CARGO_TARGET_DIR="${CARGO_TARGET_DIR:-$root/target/sim}"
 export CARGO_MANIFEST_DIR="$here"
 export CARGO_NET_OFFLINE=true
@@ -18,5 +21,28 @@ export TMPDIR="$root/work/sim/tmp"
 mkdir -p "$TMPDIR"
 unset RUSTFLAGS BOLERO_FUZZER HYDRO_SIM_LOG RUST_LOG CARGO_BUILD_TARGET || true
 export NO_COLOR=1
+prop=unknown
+prev=
+for a in "$@"; do
+  if [ "$prev" = "--prop" ]; then prop="$a"; fi
+  prev="$a"
+done
+log="$root/work/sim/stderr-$prop.log"
 cd "$here"
-exec "$CARGO_TARGET_DIR/release/sim" "$@"
+"$CARGO_TARGET_DIR/release/sim" "$@" 2>"$log"
+rc=$?
+if [ $rc -eq 2 ] && grep -q "unexpected recompilation in final build" "$log"; then
+  # The repository sources changed after hydro_lang's trybuild driver stamped its shared
+  # dependency prebuild as fresh (e.g. a concurrent commit under the repository): reset the
+  # stamp so the prebuild runs again, and retry once.
+  : > "$CARGO_TARGET_DIR/.prebuild.lock"
+  "$CARGO_TARGET_DIR/release/sim" "$@" 2>"$log"
+  rc=$?
+fi
+if [ $rc -ne 0 ]; then
+  echo "---- tail of $log ----" >&2
+  tail -n 30 "$log" >&2
+fi
+# temp copies of loaded dylibs are removed by the harness on exit; sweep leftovers
+find "$TMPDIR" -maxdepth 1 -type f -mmin +120 -delete 2>/dev/null || true
+exit $rc
